@@ -20,6 +20,14 @@ CLAIMED = {
    text="Machine-checked proof (Coq) about a model of pmerge/mro_implementation and GetAttrString: an accepted class always gets a consistent linearisation (itself first, every base's MRO and the declared base order preserved, exactly its ancestors, no duplicates), a hierarchy with no such linearisation is rejected, and lookup returns the instance's own attribute or else the first definition along the MRO. The model is tied to the code by running generated class DAGs (exhaustive to 4 classes, sampled to 6) on the implementation and comparing MRO order probes with the model inside Coq; binding, isinstance and write locality are compared with CPython.",
    note="Trusted: Coq kernel; the hand-written MRO/lookup model (correspondence-tied on generated DAGs only); CPython 3.11 as validated oracle for descriptor binding, isinstance, write/delete locality. __name__/__mro__/__class__ introspection is absent in gpython and not used.",
    technique="Rocq/Coq inductive proof over a hand-written C3 merge model + vm_compute correspondence on class DAG programs + CPython differential", ref="5/C16"),
+ "C12": dict(
+   text="Verified validator + translation validation. A bytecode verifier written in Coq (decoder following the VM's own fetch rule; abstract interpretation of every opcode and of the unwinding loop of vm/eval.go over value-stack tags and the block stack; operand-range, jump-target, co_stacksize and line-table checks) is proved sound: a certificate closed under the abstract step contains every reachable abstract state, so no reachable state underflows or overflows the stack, leaves an instruction boundary or hits a VM-internal panic. On every run the verifier is executed by the Coq kernel (vm_compute) on every code object the real compiler emits for every .py file of the repository and for generated programs, and every (pc, stack depth, block depth) the real VM reaches (hook 1) must be among the predicted ones.",
+   note="Trusted: Coq kernel; the hand-written abstract effects of the opcodes (tied to the real VM only by the run-time conformance check: testing); opcode numbering regenerated from vm/opcodes.go. The theorem is per certificate (translation validation), not a proof that the compiler always emits verifiable code.",
+   technique="Rocq/Coq-verified bytecode verifier run in the kernel on each emitted code object + dynamic conformance through a VM hook", ref="5/C12"),
+ "C02": dict(
+   text="Machine-checked proof (Coq) about the model of RunFrame's unwinding loop and of exception matching: an exception is never swallowed or diverted by unwinding (it enters the innermost enclosing except/finally handler or leaves the frame), return and break run every intervening finally body, and the handler taken is the first whose class is in the raised class's MRO. The model is the one C12 ties to the real VM at run time. Code generation for try/finally/with/loops is not modelled: stdout path traces, escaping exception class and traceback line numbers of systematic statement nestings (all depth-1 nestings, pending exits across cleanup code, sampled deeper nestings) are compared with CPython.",
+   note="Trusted: Coq kernel; the hand-written unwinding model; CPython 3.11 as validated oracle for the compiled programs (continue inside finally excluded as in 3.4). Partial: compile.go is covered by differential testing only; user-defined exception classes are a listed finding.",
+   technique="Rocq/Coq proofs over the VM unwinding model + CPython differential on systematic control-flow nestings", ref="5/C02"),
 }
 NOT_YET = "check not built yet in this round (planned in DESIGN.md section 8)"
 checks = []; na = []
@@ -40,7 +48,7 @@ for p in props:
 m = dict(version=1, setup_cmd="sh tools/setup.sh",
   hooks=dict(guard="verif", enable="go build -tags verif (harness module /verif/go replaces github.com/go-python/gpython => /repo)",
              baseline_off_cmd="cd /repo && go build ./... && go test -vet=off -count=1 ./...",
-             source_commits=["30093da"], add_only=True),
+             source_commits=["30093da", "71f6d86"], add_only=True),
   engines=[dict(name="rocq-proof+correspondence", path="/verif/coq + /verif/go + /verif/tools/check.py",
                 serves_properties=[c["property_id"] for c in checks],
                 kind_free_text="Coq 8.16.1 development (models regenerated from the Go source or hand-written), per-run kernel-checked obligations, differential correspondence harness against the implementation built from /repo with -tags verif")],
